@@ -34,7 +34,7 @@ sys.path.insert(0, os.path.join(ROOT, "tools"))
 from registry import PROPS, FIXES  # noqa: E402
 
 
-def sh(cmd, cwd=None, timeout=None, stdin=None, stdout=subprocess.PIPE, stderr=subprocess.PIPE):
+def sh(cmd, cwd=None, timeout=None, stdin=subprocess.DEVNULL, stdout=subprocess.PIPE, stderr=subprocess.PIPE):
     return subprocess.run(cmd, cwd=cwd, env=ENV, timeout=timeout, stdin=stdin, stdout=stdout,
                           stderr=stderr, text=True)
 
@@ -81,7 +81,8 @@ def cargo_build(avx2=False):
     if avx2:
         env["RUSTFLAGS"] = "-C target-feature=+avx2"
         env["CARGO_TARGET_DIR"] = os.path.join(HARNESS, "target-avx2")
-    r = subprocess.run(cmd, cwd=HARNESS, env=env, timeout=3600, stdout=subprocess.PIPE, stderr=subprocess.PIPE, text=True)
+    r = subprocess.run(cmd, cwd=HARNESS, env=env, timeout=3600, stdin=subprocess.DEVNULL, stdout=subprocess.PIPE,
+                       stderr=subprocess.PIPE, text=True)
     return r.returncode == 0, (r.stdout + r.stderr)
 
 
@@ -164,8 +165,8 @@ def run_stream(pid, idx, hargs, per_case_timeout=20, binary=None):
     cases = os.path.join(d, f"cases_{idx}.txt")
     model = os.path.join(d, f"model_{idx}.txt")
     with open(cases, "w") as f:
-        r = subprocess.run([binary or VHARNESS] + hargs, env=ENV, stdout=f, stderr=subprocess.DEVNULL,
-                           timeout=7200)
+        r = subprocess.run([binary or VHARNESS] + hargs, env=ENV, stdin=subprocess.DEVNULL, stdout=f,
+                           stderr=subprocess.DEVNULL, timeout=7200)
     if r.returncode != 0:
         # the harness died (abort/hang inside the implementation): last printed case is the suspect
         return None, cases
